@@ -124,53 +124,79 @@ def reference(P, lax):
 
 
 # ---------------------------------------------------------------- the real run
+class Model:
+    """The scenario program bound to fresh recording entities (also used by C03/C04)."""
+
+    def __init__(self, P):
+        self.P = P
+        self.log = []
+        self.pre = []
+        P_ = P
+        log = self.log
+        pre = self.pre
+        n = P["n"]
+
+        def behaviour(ent, event, label):
+            P = P_
+            if not label.startswith("p") or "." in label:
+                return None
+            i = int(label[1:])
+            if i > 1:
+                return None
+            k = P["kind"][i]
+            now = ent.now.nanoseconds
+            other = self.ents[(i + 1) % 2]
+            if k == 0:
+                return None
+            if k == 1:
+                return mk_event(now + P["d"][i][0], f"p{i}.a", other, P["cd"][i][0])
+            if k == 2:
+                return [mk_event(now + P["d"][i][0], f"p{i}.a", other, P["cd"][i][0]),
+                        mk_event(now + P["d"][i][1], f"p{i}.b", ent, P["cd"][i][1])]
+            if k == 3:
+                def gen():
+                    side = mk_event(now + P["d"][i][0], f"p{i}.a", other, P["cd"][i][0])
+                    yield DELAYS[P["gsel"][i]], [side]
+                    log.append((label, "resume", None, ent.now.nanoseconds, ent.name))
+                    return [mk_event(ent.now.nanoseconds + P["d"][i][1], f"p{i}.f", other, P["cd"][i][1])]
+                return gen()
+            if k == 4:
+                pre[(i + 1) % n].cancel()
+                return mk_event(now + P["d"][i][0], f"p{i}.a", other, P["cd"][i][0])
+            return None
+
+        self.ents = [Recorder("e0", log, behaviour), Recorder("e1", log, behaviour)]
+
+    def make_sim(self, **kw):
+        P = self.P
+        end = None if P["end"] is None else Instant(P["end"])
+        self.sim = Simulation(entities=self.ents, end_time=end, **kw)
+        return self.sim
+
+    def schedule(self):
+        P = self.P
+        for i in range(P["n"]):
+            self.pre.append(mk_event(P["t"][i], f"p{i}", self.ents[i % 2], P["daemon"][i]))
+        self.sim.schedule(self.pre)
+        for i in range(P["n"]):
+            if P["cancel"][i]:
+                self.pre[i].cancel()
+
+    def deliveries(self):
+        return [(l, what, clk) for (l, what, _t, clk, _e) in self.log]
+
+
 def scenario(sym, tier):
     r = Result()
     P = _params(sym, tier)
     n = P["n"]
-    log = []
-    pre = []
-
-    def behaviour(ent, event, label):
-        if not label.startswith("p") or "." in label:
-            return None
-        i = int(label[1:])
-        if i > 1:
-            return None
-        k = P["kind"][i]
-        now = ent.now.nanoseconds
-        other = ents[(i + 1) % 2]
-        if k == 0:
-            return None
-        if k == 1:
-            return mk_event(now + P["d"][i][0], f"p{i}.a", other, P["cd"][i][0])
-        if k == 2:
-            return [mk_event(now + P["d"][i][0], f"p{i}.a", other, P["cd"][i][0]),
-                    mk_event(now + P["d"][i][1], f"p{i}.b", ent, P["cd"][i][1])]
-        if k == 3:
-            def gen():
-                side = mk_event(now + P["d"][i][0], f"p{i}.a", other, P["cd"][i][0])
-                yield DELAYS[P["gsel"][i]], [side]
-                log.append((label, "resume", None, ent.now.nanoseconds, ent.name))
-                return [mk_event(ent.now.nanoseconds + P["d"][i][1], f"p{i}.f", other, P["cd"][i][1])]
-            return gen()
-        if k == 4:
-            pre[(i + 1) % n].cancel()
-            return mk_event(now + P["d"][i][0], f"p{i}.a", other, P["cd"][i][0])
-        return None
-
-    ents = [Recorder("e0", log, behaviour), Recorder("e1", log, behaviour)]
-    end = None if P["end"] is None else Instant(P["end"])
-    sim = Simulation(entities=ents, end_time=end)
+    m = Model(P)
+    sim = m.make_sim()
     if P["mode"] == 2:
         sim.control  # attaching the control surface selects the instrumented loop
-    for i in range(n):
-        pre.append(mk_event(P["t"][i], f"p{i}", ents[i % 2], P["daemon"][i]))
-    sim.schedule(pre)
-    for i in range(n):
-        if P["cancel"][i]:
-            pre[i].cancel()
+    m.schedule()
     sim.run()
+    log = m.log
 
     # ---- oracle --------------------------------------------------------
     got = [(l, what, clk) for (l, what, _t, clk, _e) in log]
